@@ -72,6 +72,13 @@ static int cmp_key(const void *a, const void *b, void *p)
     return ((x->key > y->key) - (x->key < y->key)) * (1 + (x->id * 131 + y->id * 31) % 997);
 }
 
+static int big_cmp(const void *a, const void *b, void *p)
+{
+    (void)p;
+    /* first member of the big element is its key */
+    return (*(const int *)a > *(const int *)b) - (*(const int *)a < *(const int *)b);
+}
+
 static void st_create(int scope)
 {
     int i;
@@ -527,6 +534,65 @@ static void run_random(uint64_t idx)
     VRT_COUNT("random.histories");
 }
 
+/* lists far longer than 2^16 elements: counters, sort and reverse must not depend on the length */
+#define BIGL 70000
+static void run_big(uint64_t which)
+{
+    struct belem { int key; int seq; struct cstl_slist_node n; } *E = vrt_alloc(sizeof(*E) * BIGL);
+    struct cstl_slist a, b;
+    vrt_rng g;
+    size_t i, n;
+    const struct cstl_slist_node *p;
+    vrt_rng_seed(&g, vrt_seed, 0xC13B16 + which);
+    vrt_case_note("big: %d elements, push_back/concat/sort/reverse/pop_front", BIGL);
+    cstl_slist_init(&a, offsetof(struct belem, n)); cstl_slist_init(&b, offsetof(struct belem, n));
+    VRT_OP1("slist.push_back", "%ld elements into two lists", BIGL);
+    for (i = 0; i < BIGL; i++) {
+        E[i].key = (int)vrt_below(&g, which ? 5 : 1000000); E[i].seq = (int)i;
+        cstl_slist_push_back(i < BIGL / 2 ? &a : &b, &E[i]);
+    }
+    VRT_CHECK(cstl_slist_size(&a) + cstl_slist_size(&b) == BIGL, "slist.big.size", "sizes %zu + %zu", cstl_slist_size(&a), cstl_slist_size(&b));
+    VRT_OP0("slist.concat", "two halves");
+    cstl_slist_concat(&a, &b);
+    VRT_CHECK(cstl_slist_size(&a) == BIGL && cstl_slist_size(&b) == 0, "slist.big.concat.size", "size %zu after concat", cstl_slist_size(&a));
+    VRT_CHECK(cstl_slist_back(&a) == &E[BIGL - 1] && cstl_slist_front(&a) == &E[0], "slist.big.concat.ends", "front/back wrong after concat");
+    for (p = a.h.n, n = 0; p != NULL; p = p->n, n++)
+        VRT_CHECK(p == &E[n].n, "slist.big.concat.order", "element %zu out of place after concat", n);
+    VRT_CHECK(n == BIGL, "slist.big.concat.length", "%zu elements linked", n);
+    VRT_OP0("slist.sort", "big");
+    cstl_slist_sort(&a, big_cmp, NULL);
+    for (p = a.h.n, n = 0; p != NULL; p = p->n, n++) {
+        const struct belem *x = (const struct belem *)((const char *)p - offsetof(struct belem, n));
+        VRT_CHECK(x >= E && x < E + BIGL, "slist.big.sort.foreign", "foreign node after sort");
+        if (p->n != NULL) {
+            const struct belem *y = (const struct belem *)((const char *)p->n - offsetof(struct belem, n));
+            VRT_CHECK(x->key <= y->key, "slist.big.sort.order", "keys out of order at %zu", n);
+        }
+    }
+    VRT_CHECK(n == BIGL && cstl_slist_size(&a) == BIGL, "slist.big.sort.length", "%zu elements linked, size %zu", n, cstl_slist_size(&a));
+    VRT_OP0("slist.reverse", "big");
+    cstl_slist_reverse(&a);
+    {
+        int last = 0x7fffffff;
+        void *e;
+        n = 0;
+        VRT_OP0("slist.pop_front", "drain");
+        while ((e = cstl_slist_pop_front(&a)) != NULL) {
+            const struct belem *x = e;
+            VRT_CHECK(x->key <= last, "slist.big.reverse.order", "keys not descending after reverse at %zu", n);
+            last = x->key; n++;
+            VRT_CHECK(n <= BIGL, "slist.big.drain.overlong", "more elements popped than were pushed");
+        }
+        VRT_CHECK(n == BIGL && cstl_slist_size(&a) == 0, "slist.big.drain.count", "%zu elements popped", n);
+    }
+    /* the tail is still the true last: push_back on the drained list */
+    cstl_slist_push_back(&a, &E[0]); cstl_slist_push_back(&a, &E[1]);
+    VRT_CHECK(cstl_slist_back(&a) == &E[1] && cstl_slist_front(&a) == &E[0], "slist.big.reuse", "push_back after the drain landed in the wrong place");
+    vrt_free(E);
+    VRT_COUNT("big.cases");
+    vrt_sig(0, 0xb16 + which);
+}
+#define NBIG 2
 static uint64_t nrandom(void)
 {
     if (is_clear_mode) return vrt_thorough ? 2000 : 200;
@@ -537,12 +603,14 @@ static uint64_t ncases(void)
     is_clear_mode = strcmp(vrt_mode, "clear") == 0;
     if (vrt_thorough) { scopes = thorough_scopes; nscopes = sizeof(thorough_scopes) / sizeof(scopes[0]); }
     else { scopes = quick_scopes; nscopes = sizeof(quick_scopes) / sizeof(scopes[0]); }
-    return nscopes + nrandom();
+    return nscopes + (is_clear_mode ? 0 : NBIG) + nrandom();
 }
 static void run_case(uint64_t idx)
 {
+    const uint64_t nb = is_clear_mode ? 0 : NBIG;
     if (idx < (uint64_t)nscopes) run_closure((int)idx);
-    else run_random(idx - nscopes);
+    else if (idx < nscopes + nb) run_big(idx - nscopes);
+    else run_random(idx - nscopes - nb);
 }
 static void winit(void)
 {
